@@ -54,7 +54,7 @@ theorem isDataKid_encode (t : Tree) (h : dt.contains t.info.gtype = true) : isDa
   | mk i kids =>
     simp only [Tree.info] at h
     simp only [List.contains_eq_mem, decide_eq_true_eq] at h
-    simp [encode, isDataKid, Obj.isGroup, Obj.gtype, Obj.attrs, nodeAttrs, alookup, h]
+    simp [encode, isDataKid, hasDataTag, Obj.isGroup, Obj.gtype, Obj.attrs, nodeAttrs, alookup, h]
 
 @[simp] theorem pyClass_nodeAttrs (i : NodeInfo) (k : List (String × Obj)) :
     (Obj.group (nodeAttrs i) k).pyClass = some i.cls := by
@@ -65,8 +65,9 @@ theorem isDataKid_encode (t : Tree) (h : dt.contains t.info.gtype = true) : isDa
   simp [Obj.gtype, Obj.attrs, nodeAttrs, alookup]
 
 theorem bodyOf_encode (a : Attrs) (body : List (String × Obj)) (kids : List Tree) (taken : List String)
-    (hb : body.all (fun kv => !isDataKid dt kv.2) = true) (hk : kidsWF ct dt taken kids = true) :
+    (hb' : body.all (fun kv => !hasDataTag dt kv.2) = true) (hk : kidsWF ct dt taken kids = true) :
     bodyOf dt (.group a (body ++ encodeKids kids)) = body := by
+  have hb := body_not_dataKid hb'
   simp only [bodyOf, Obj.kids, List.filter_append]
   have h1 : body.filter (fun kv => !isDataKid dt kv.2) = body := by
     rw [List.filter_eq_self]
@@ -86,8 +87,10 @@ theorem bodyOf_encode (a : Attrs) (body : List (String × Obj)) (kids : List Tre
   rw [h1, h2 kids taken hk]; simp
 
 theorem populateKids_body (body rest : List (String × Obj))
-    (hb : body.all (fun kv => !isDataKid dt kv.2) = true) :
+    (hb' : body.all (fun kv => !hasDataTag dt kv.2) = true) :
     populateKids ct dt (body ++ rest) = populateKids ct dt rest := by
+  have hb := body_not_dataKid hb'
+  clear hb'
   induction body with
   | nil => rfl
   | cons kv b ih =>
